@@ -994,6 +994,8 @@ var c10JSONLines = []string{
 	`{"@level":"info"}`, `{"@level":"off","@message":"x"}`, `{"@level":"nolevel","@message":"x"}`,
 	`{"@level":"info","@message":"kv","a":1,"b":"two","c":[1,2],"d":{"e":null},"f":true,"g":1.5e300}`,
 	`{"@level":"info","@message":"ts key","timestamp":"mine","@module":"m","@caller":"c.go:1"}`,
+	// fields whose value is null / empty / zero are fields too
+	`{"@level":"error","@message":"request failed","attempt":3,"err":null}`, `{"@level":"info","@message":"zeros","n":0,"s":"","b":false,"l":[],"o":{},"z":null}`,
 	`{"@level":"info","@message":"dup","a":1,"a":2}`, `{"@message":"first","@message":"second","@level":"error"}`,
 	`{"@level":"info","@message":"tz","@timestamp":"2023-01-02T03:04:05.123456+01:00"}`,
 	`{"@level":"info","@message":"esc \" \\ \n é 😀"}`, `{"@level":"info","@message":"bad utf8 ` + "\xff\xfe" + `"}`,
